@@ -1284,28 +1284,38 @@ class Exec:
     def _mem_symbolic(self, base, args, n, g, caller):
         """memcpy/memmove/memset of a symbolic number of bytes between byte-array regions (z3 Lambda arrays)"""
         dc = self._candidates(args[0], g, base, caller)
-        if len(dc) != 1 or dc[0][0].kind != 'elems' or dc[0][0].elemsize != 1:
-            raise Unsupported('%s with symbolic length outside byte-array regions in %s' % (base, caller))
+        if len(dc) != 1 or dc[0][0].kind != 'elems':
+            raise Unsupported('%s with symbolic length outside element-array regions in %s' % (base, caller))
         dr, _, doff = dc[0]
+        k = dr.elemsize
+        if k != 1 and base == 'memset':
+            raise Unsupported('memset of a symbolic number of bytes on %d-byte elements in %s' % (k, caller))
         self._bounds(dr, doff, 0, g, base, caller)
         size_d = dr.size if not isinstance(dr.size, int) else z3.BitVecVal(dr.size, 64)
         self.ub.append((z3.And(g, n != 0, z3.Or(z3.UGT(doff, size_d), z3.UGT(n, size_d - doff))), '%s writes outside %s' % (base, dr.name), caller))
-        i = z3.BitVec('i!lam%d' % self.fresh, 64)
+        K = z3.BitVecVal(k, 64)
+        if k != 1:
+            # whole elements only: byte offsets and the length must be multiples of the element size (obligation)
+            self.ub.append((z3.And(g, n != 0, z3.Or(z3.URem(doff, K) != 0, z3.URem(n, K) != 0)), '%s of partial elements of %s' % (base, dr.name), caller))
+        i = z3.BitVec('i!lam%d' % self.fresh, 64)      # element index
         self.fresh += 1
-        inr = z3.And(z3.UGE(i, doff), z3.ULT(i - doff, n))
+        dix, nel = z3.UDiv(doff, K), z3.UDiv(n, K)
+        inr = z3.And(z3.UGE(i, dix), z3.ULT(i - dix, nel))
         if base == 'memset':
             b = self.fit(args[1], 8)
             newarr = z3.Lambda([i], z3.If(inr, b, z3.Select(dr.array, i)))
         else:
             sc = self._candidates(args[1], g, base, caller)
-            if len(sc) != 1 or sc[0][0].kind != 'elems' or sc[0][0].elemsize != 1:
-                raise Unsupported('%s source is not a byte-array region in %s' % (base, caller))
+            if len(sc) != 1 or sc[0][0].kind != 'elems' or sc[0][0].elemsize != k:
+                raise Unsupported('%s source is not an element-array region of the same element size in %s' % (base, caller))
             sr, _, soff = sc[0]
             size_s = sr.size if not isinstance(sr.size, int) else z3.BitVecVal(sr.size, 64)
             self.ub.append((z3.And(g, n != 0, z3.Or(z3.UGT(soff, size_s), z3.UGT(n, size_s - soff))), '%s reads outside %s' % (base, sr.name), caller))
+            if k != 1:
+                self.ub.append((z3.And(g, n != 0, z3.URem(soff, K) != 0), '%s from a partial element of %s' % (base, sr.name), caller))
             if sr is dr and base == 'memcpy':
                 overlap = z3.And(n != 0, z3.ULT(soff, doff + n), z3.ULT(doff, soff + n))
                 self.ub.append((z3.And(g, overlap), 'memcpy with overlapping source and destination in %s' % dr.name, caller))
-            newarr = z3.Lambda([i], z3.If(inr, z3.Select(sr.array, i - doff + soff), z3.Select(dr.array, i)))
+            newarr = z3.Lambda([i], z3.If(inr, z3.Select(sr.array, i - dix + z3.UDiv(soff, K)), z3.Select(dr.array, i)))
         dr.array = newarr if z3.is_true(z3.simplify(g)) else z3.If(g, newarr, dr.array)
         return None
